@@ -22,37 +22,40 @@ type C05Case struct {
 
 var _ = Register("C05", func() interface{} { return new(C05Case) }, func(c interface{}) string { return c05Oracle(c.(*C05Case)) })
 
-var c05Decl = &GenCfg{Depth: 0, MaxOpts: 3, MaxGroups: 2, NestGroups: 2, Kinds: append(append([]Kind{}, AllArgKinds...), KBool, KBoolSlice, KBoolPtr),
+var c05Decl = &GenCfg{Depth: 1, Fanout: 2, SubOpt: 100, CmdPct: 50, Aliases: true, MaxOpts: 3, MaxGroups: 2, NestGroups: 2, Kinds: append(append([]Kind{}, AllArgKinds...), KBool, KBoolSlice, KBoolPtr),
 	Ns: true, EnvNs: true, Req: 0, Choices: true, Defaults: true, Initial: true, Bases: true, NonASCII: true, NsDelims: []string{"-"}, FieldPool: true}
 
 func genC05(t *rapid.T) *C05Case {
 	d := genDecl(t, c05Decl)
 	// env keys on about half of the options
 	n := 0
-	d.Root.G.EachGroup(func(g *Group, _ []*Group) {
-		for i := range g.Options {
-			o := &g.Options[i]
-			n++
-			if rapid.Bool().Draw(t, "hasEnv") {
-				o.Env = fmt.Sprintf("VPC05_%d", n)
-				if o.Kind.IsMulti() {
-					o.EnvDelim = rapid.SampledFrom([]string{"", ",", "::"}).Draw(t, "envDelim")
+	d.Root.SubOpt = true
+	d.EachCmd(func(cm *Cmd, _ []*Cmd) {
+		cm.G.EachGroup(func(g *Group, _ []*Group) {
+			for i := range g.Options {
+				o := &g.Options[i]
+				n++
+				if rapid.Bool().Draw(t, "hasEnv") {
+					o.Env = fmt.Sprintf("VPC05_%d", n)
+					if o.Kind.IsMulti() {
+						o.EnvDelim = rapid.SampledFrom([]string{"", ",", "::"}).Draw(t, "envDelim")
+					}
 				}
-			}
-			if len(o.Defaults) == 0 && !o.Kind.IsFlag() && o.Kind != KTri && rapid.Bool().Draw(t, "moreDefaults") {
-				k := 1
-				if o.Kind.IsMulti() {
-					k = rapid.IntRange(1, 3).Draw(t, "ndef")
-				}
-				for j := 0; j < k; j++ {
-					if len(o.Choices) > 0 {
-						o.Defaults = append(o.Defaults, rapid.SampledFrom(o.Choices).Draw(t, "defChoice"))
-					} else {
-						o.Defaults = append(o.Defaults, genValidText(t, o.Kind, o.Base))
+				if len(o.Defaults) == 0 && !o.Kind.IsFlag() && o.Kind != KTri && rapid.Bool().Draw(t, "moreDefaults") {
+					k := 1
+					if o.Kind.IsMulti() {
+						k = rapid.IntRange(1, 3).Draw(t, "ndef")
+					}
+					for j := 0; j < k; j++ {
+						if len(o.Choices) > 0 {
+							o.Defaults = append(o.Defaults, rapid.SampledFrom(o.Choices).Draw(t, "defChoice"))
+						} else {
+							o.Defaults = append(o.Defaults, genValidText(t, o.Kind, o.Base))
+						}
 					}
 				}
 			}
-		}
+		})
 	})
 	c := &C05Case{D: d, Env: map[string]string{}}
 	c.Mode = rapid.SampledFrom([]string{"ini-normal-before", "ini-asdefaults-before", "ini-asdefaults-after"}).Draw(t, "mode")
@@ -115,7 +118,9 @@ func genC05(t *rapid.T) *C05Case {
 			}
 		}
 		// command line
-		if rapid.IntRange(0, 2).Draw(t, "hasCli") == 0 {
+		// (options of commands stay without command-line occurrence: no command
+		// is selected, their other sources must still be ranked correctly)
+		if len(o.Chain) == 1 && rapid.IntRange(0, 2).Draw(t, "hasCli") == 0 {
 			k := 1
 			if o.Kind.IsMulti() || o.Kind == KBoolSlice {
 				k = rapid.IntRange(1, 3).Draw(t, "ncli")
@@ -246,6 +251,6 @@ func c05Oracle(c *C05Case) string {
 }
 
 func TestC05(t *testing.T) {
-	S("C05").Rule = "1-12 options of every non-callback type in nested groups with namespaces and env-namespaces x independent subsets of {initial field value, default tag(s), environment variable unset/set/set-empty with env-delim none/,/::, INI entry(ies), command-line occurrence(s)} x INI mode {normal read before the command line, as-defaults before, as-defaults after}; oracle: R ranking cli > ini > env > default > initial, winner's values replace everything lower for slices and maps. non-trivial: an option with >= 2 sources present; distinct by (type, source subset, mode, env-delim)"
+	S("C05").Rule = "options of every non-callback type in nested groups with namespaces and env-namespaces, on the parser and on sub-commands that are not selected x independent subsets of {initial field value, default tag(s), environment variable unset/set/set-empty with env-delim none/,/::, INI entry(ies), command-line occurrence(s)} x INI mode {normal read before the command line, as-defaults before, as-defaults after}; oracle: R ranking cli > ini > env > default > initial, winner's values replace everything lower for slices and maps. non-trivial: an option with >= 2 sources present; distinct by (type, source subset, mode, env-delim)"
 	runProp(t, "C05", genC05, c05Oracle)
 }
